@@ -514,8 +514,8 @@ func runChild(h history) (tr []string, code int, err error) {
 
 func stuck(tr []string) bool {
 	for _, e := range tr {
-		if strings.HasPrefix(e, "!") {
-			return true
+		if strings.HasPrefix(e, "!") || strings.HasPrefix(e, "#child ended") {
+			return true // a backstop fired, or the child was ended by a signal instead of exiting: re-run before believing it
 		}
 	}
 	return false
